@@ -20,7 +20,7 @@ ASSUMPTIONS = [
     'leaves of the five components are interned objects (Process instances by name, port paths, dependency lists, state values)',
     'the clause "leaves the merged-in composites unchanged, then and later" is about object identity and is decided by the snapshot oracle; the functional model has no aliasing',
 ]
-IMPORTS = 'From Viv Require Import Base.Assoc Base.Tree Model.Paths Model.Composite Corr.C16c.'
+IMPORTS = 'From Viv Require Import Base.Assoc Base.Tree Model.Paths Model.Composite Model.Override Corr.C16c.'
 CHECK_FN = 'check_case'
 BAD_TERM = '(OEmbed [] empty_comp {| c_processes := Lf 0%N; c_topology := Nd []; c_steps := Nd []; c_flow := Nd []; c_state := Nd [] |})'
 
@@ -86,6 +86,11 @@ def generate(seed, tier, enlarged=False):
             cases.append({'kind': 'override', 'parts': parts, 'route': rng.choice(['composer', 'composite', 'merge', 'param']),
                           'targets': [[pth, rng.randint(1, 9) * 11, rng.random() < 0.5] for pth in targets],
                           'shared_schema': rng.random() < 0.6})
+            if rng.random() < 0.12 and cases[-1]['route'] != 'param':
+                # an override naming a process that does not exist (beside one that does)
+                pth = list(rng.choice(targets))
+                pth[-1] = 'ghost'
+                cases[-1]['targets'].append([pth, 5, True])
         elif r == 4:
             cases.append({'kind': 'entry', 'parts': gen_parts(rng, nested_ok=False), 'ticks': rng.randint(1, 3)})
         else:
@@ -373,7 +378,17 @@ def run_override(c):
         for path, node in store.depth():
             if node.leaf and path and path[-1] == 'x':
                 nodes['/'.join(path)] = [node.value, bool(node.emit)]
-        out = {'nodes': nodes, 'schema_kept': SHARED_SCHEMA == pristine}
+        schemas = []
+
+        def walk_p(d, pre=()):
+            for k, v in d.items():
+                if isinstance(v, dict):
+                    walk_p(v, pre + (k,))
+                else:
+                    schemas.append([list(pre + (k,)), copy.deepcopy(v.get_schema())])
+        walk_p(cfg['processes'])
+        walk_p(cfg['steps'])
+        out = {'nodes': nodes, 'schema_kept': SHARED_SCHEMA == pristine, 'schemas': schemas}
     except Exception as e:
         out = {'err': '%s: %s' % (type(e).__name__, str(e)[:200])}
     SHARED_SCHEMA.clear()
@@ -382,8 +397,13 @@ def run_override(c):
 
 
 def oracle_override(c, ob):
+    ghost = any(pth[-1] == 'ghost' for pth, _, _ in c['targets'])
     if 'err' in ob:
+        if ghost and ob['err'].startswith('KeyError'):
+            return []
         return [('schema overrides made construction raise: ' + ob['err'], 'override-raised')]
+    if ghost:
+        return [('an override naming a process that does not exist was accepted silently', 'override-misdirected')]
     msgs = []
     over = {tuple(pth): (dflt, emit) for pth, dflt, emit in c['targets']}
     parts = c['parts']
@@ -495,7 +515,7 @@ def oracle(c, ob, rng):
 
 class R:
     def __init__(self):
-        self.keys = common.Names(KEYS + PNAMES + SNAMES + ['s', 'x'])
+        self.keys = common.Names(KEYS + PNAMES + SNAMES + ['s', 'x', '_default', '_emit', 'ghost'])
         self.leaves = common.Names()
 
     def key(self, k):
@@ -514,6 +534,42 @@ class R:
         return clist([self.key(k) for k in p])
 
 
+def render_override(c, ob, r):
+    """(OOverride processes-and-steps overrides declared-schema observed-get_schema-per-process)"""
+    from harness.common import cZ, copt
+    parts = c['parts']
+    pids = {}
+
+    def ptree(d, pre=()):
+        items = []
+        for k, v in d.items():
+            if isinstance(v, dict):
+                items.append(cpair(r.key(k), ptree(v, pre + (k,))))
+            else:
+                pids[pre + (k,)] = len(pids) + 1
+                items.append(cpair(r.key(k), '(Lf %s)' % cN(pids[pre + (k,)])))
+        return '(Nd %s)' % clist(items)
+    # processes_and_steps = deep_merge_check(copy(processes), steps)
+    both = ref_deep_merge(copy.deepcopy(parts['processes']), copy.deepcopy(parts['steps']))
+    pt = ptree(both)
+
+    def stree(d):
+        if isinstance(d, dict):
+            return '(Nd %s)' % clist([cpair(r.key(k), stree(v)) for k, v in d.items()])
+        return '(Lf %s)' % cZ(int(d))
+    over = {}
+    for pth, dflt, emit in c['targets']:
+        d = over
+        for k in pth[:-1]:
+            d = d.setdefault(k, {})
+        d[pth[-1]] = {'s': {'x': {'_default': dflt, '_emit': emit}}}
+    if 'err' in ob:
+        obs = 'None'
+    else:
+        obs = '(Some %s)' % clist([cpair(cN(pids[tuple(pth)]), stree(sch)) for pth, sch in ob['schemas']])
+    return '(OOverride %s %s %s %s)' % (pt, stree(over), stree({'s': {'x': {'_default': 0, '_emit': True}}}), obs)
+
+
 def render(c, ob):
     r = R()
     if c['kind'] == 'embed':
@@ -529,7 +585,9 @@ def render(c, ob):
             ms.append('(%s, %s, %s)' % (r.comp(other), r.comp(loose), r.path(m['path'])))
         return '(OMerge %s %s %s)' % (r.comp(tokens(c['self'])), clist(ms), r.comp(ob['comp']))
     if c['kind'] == 'override':
-        return None                  # oracle only
+        if 'err' in ob and not ob['err'].startswith('KeyError'):
+            return None
+        return render_override(c, ob, r)
     return '(OEmbed [] empty_comp empty_comp)'
 
 
